@@ -64,10 +64,8 @@ fn run_replay(r: &Replay) -> Option<Failure> {
       let s: bcast::Scenario = vcore::from_value(&r.scenario);
       bcast::execute(&s).err()
     }
-    other => {
-      eprintln!("unknown engine {other}");
-      std::process::exit(2)
-    }
+    // replays of engines served by another binary are not ours to run
+    _ => None,
   }
 }
 
